@@ -500,6 +500,13 @@ func (m *Machine) assume(c *Term) {
 }
 
 // feasible reports whether pc ∧ c is satisfiable (Unknown counts as feasible).
+// checkItemBudget aborts the work item (INCONCLUSIVE, never a pass) when its wall-clock budget is used up.
+func (m *Machine) checkItemBudget() {
+	if m.cfg.ItemTimeoutS > 0 && time.Since(m.itemStart).Seconds() > float64(m.cfg.ItemTimeoutS) {
+		abortf("work-item wall-clock budget exceeded (%ds) after %d paths in %s", m.cfg.ItemTimeoutS, m.paths, m.stackString())
+	}
+}
+
 func (m *Machine) feasible(c *Term) (bool, Model) {
 	if c.IsConst() {
 		return c.k != 0, nil
@@ -510,6 +517,7 @@ func (m *Machine) feasible(c *Term) (bool, Model) {
 	if m.modelOK && m.tb.Eval(c, m.model) != 0 {
 		return true, m.model
 	}
+	m.checkItemBudget() // also before every solver query: slow queries execute few instructions
 	lvl := m.sol.level
 	m.sol.Push()
 	m.sol.Assert(c)
@@ -934,8 +942,8 @@ func (m *Machine) step() (alive bool) {
 	m.replayIdx = 0
 	m.decs = m.decs[:0]
 	m.instrs++
-	if m.instrs&0xfff == 0 && m.cfg.ItemTimeoutS > 0 && time.Since(m.itemStart).Seconds() > float64(m.cfg.ItemTimeoutS) {
-		abortf("work-item wall-clock budget exceeded (%ds) after %d paths in %s", m.cfg.ItemTimeoutS, m.paths, m.stackString())
+	if m.instrs&0xfff == 0 {
+		m.checkItemBudget()
 	}
 	if m.cfg.InstrLimit > 0 && m.instrs > m.cfg.InstrLimit {
 		abortf("instruction budget exceeded (%d) in %s at %v", m.cfg.InstrLimit, m.stackString(), in)
